@@ -54,15 +54,12 @@ Fixpoint ref_match (t : N) (agg : order) (tbl : list order) (q : list nat)
   | id :: q' =>
       let p := oget tbl id in
       if (0 <? o_vol agg) && admits agg p then
-        let v := N.min (o_vol agg) (o_vol p) in
-        let p1 := set_vol p (o_vol p - v) in
-        let p2 := if o_vol p1 =? 0 then set_status (set_end p1 t) SFilled else p1 in
-        let a1 := set_vol agg (o_vol agg - v) in
-        let a2 := if o_vol a1 =? 0 then set_status (set_end a1 t) SFilled else a1 in
+        (* one fill ([Book.match_orders], characterised by theorem c03_fill_record): the smaller of the two
+           remaining volumes, at the resting order's price; an exhausted order becomes Filled at time [t] *)
+        let '(a2, p2, tr, v) := match_orders t agg p in
         let tbl' := set_nth tbl id p2 in
-        let log' := log ++ [mkTrade t (o_side p) (o_price p) v (o_id agg) (o_id p)] in
-        if o_vol p1 =? 0 then ref_match t a2 tbl' q' log' (tv + v)
-        else (a2, tbl', id :: q', log', tv + v)
+        if o_vol p2 =? 0 then ref_match t a2 tbl' q' (log ++ [tr]) (tv + v)
+        else (a2, tbl', id :: q', log ++ [tr], tv + v)
       else (agg, tbl, q, log, tv)
   end.
 
